@@ -91,6 +91,8 @@ def _worker(args):
     t0 = time.time()
     try:
         sys.setrecursionlimit(1200)
+        import logging
+        logging.disable(logging.CRITICAL)
         from symx import loader
         if not os.environ.get("VX_NO_LOADER"):
             loader.install()
